@@ -37,6 +37,10 @@ def assigned_names(stmts):
 
 
 def loop_spec(I, st, node):
+    ov = getattr(st, "gen_loop_override", None)
+    if ov is not None and st.frame.func is not None and st.frame.func.qualname == ov[0]:
+        # a loop of an inlined generator: cut at the invariant of the consumer's for loop
+        return ov[2], ov[3]
     fi = st.frame.func
     c = I.active_contract(fi)
     k = loop_ordinal(I, st, node)
@@ -47,6 +51,21 @@ def loop_spec(I, st, node):
 
 def spec_env(I, st, extra):
     fr = st.frame
+    ov = getattr(st, "gen_loop_override", None)
+    if ov is not None and fr.func is not None and fr.func.qualname == ov[0]:
+        # invariants of an inlined generator's loop are written in the consumer's vocabulary; the generator's own locals
+        # are visible as GEN_<name>
+        cons = ov[1]
+        env = {}
+        env.update(cons.entry_vars)
+        env.update(cons.vars)
+        if cons.spec_env:
+            for k, v in cons.spec_env.items():
+                env.setdefault(k, v)
+        for k, v in fr.vars.items():
+            env["GEN_" + k] = v
+        env.update(extra)
+        return env
     env = {}
     f = fr
     chain = []
@@ -65,6 +84,9 @@ def spec_env(I, st, extra):
 
 def check_inv(I, st, ls, k, env, tag):
     fi = st.frame.func
+    ov = getattr(st, "gen_loop_override", None)
+    if ov is not None and fi is not None and fi.qualname == ov[0]:
+        fi = ov[1].func
     for cl in getattr(ls, "axioms", []):
         st.assume(specs.eval_clause(I, st, cl, env, fi))
     for cl in ls.invariant:
@@ -82,8 +104,17 @@ def assume_inv(I, st, ls, env):
 def havoc(I, st, ls, env, names):
     locs = calls.modifies_locations(I, st, None, env, ls.modifies)
     calls.havoc_locations(I, st, locs)
+    ov = getattr(st, "gen_loop_override", None)
+    if ov is not None and st.frame.func is not None and st.frame.func.qualname == ov[0]:
+        cons, fnode = ov[1], ov[4]
+        cnames = assigned_names(fnode.body) | {n.id for n in ast.walk(fnode.target) if isinstance(n, ast.Name)}
+        _havoc_vars(st, cons.vars, cnames)
+    _havoc_vars(st, st.locals, names)
+
+
+def _havoc_vars(st, vars_, names):
     for nm in sorted(names):
-        v = st.locals.get(nm)
+        v = vars_.get(nm)
         if v is None:
             continue
         if v.ty in ("Fun", "Type", "View", "Gen", "Coro", "CtxMgr"):
@@ -91,7 +122,7 @@ def havoc(I, st, ls, env, names):
         if v.extra and v.extra[0] in ("emptydict", "emptylist") and v.term is None:
             continue
         if isinstance(strip_opt(v.ty), tuple) and strip_opt(v.ty)[0] == "Tuple":
-            st.locals[nm] = st.fresh_val(strip_opt(v.ty), nm)
+            vars_[nm] = st.fresh_val(strip_opt(v.ty), nm)
             continue
         if v.ty == "NoneT":
             continue
@@ -100,7 +131,7 @@ def havoc(I, st, ls, env, names):
         ty = v.ty
         if not z3.is_false(v.none) and not is_opt(ty):
             ty = ("Opt", ty)
-        st.locals[nm] = st.fresh_val(ty, nm)
+        vars_[nm] = st.fresh_val(ty, nm)
 
 
 def exec_while(I, st, node):
